@@ -352,7 +352,8 @@ def modelStep (m : State) (ws : List String) : Option (State × String) :=
   | ["add", now, fab, peer, mn, mx, ev] =>
     match now.toNat?, fab.toNat?, peer.toNat?, mn.toNat?, mx.toNat?, ev.toNat? with
     | some now, some fab, some peer, some mn, some mx, some ev =>
-      let r := m.add now fab peer mn mx ev
+      -- the `u32` arithmetic of `next_subscription_id` (equal to `State.add` below 2^32: `C13.add_u32_agrees`)
+      let r := m.addU32 now fab peer mn mx ev
       some (r.1, match r.2 with | some id => s!"some {id}" | none => "none")
     | _, _, _, _, _, _ => none
   | ["rep", now, ev] =>
